@@ -72,9 +72,6 @@ func (d *demux) isClosed() bool {
 }
 
 func (d *demux) Chain(filter framesFilter) *demux {
-	if d.isClosed() {
-		panic("demux closed")
-	}
 	next := newDemux()
 	filtered, cancel := d.Frames(0, filter)
 	go func() {
@@ -137,7 +134,9 @@ func (d *demux) Frames(bufSize int, filter framesFilter) (filtered <-chan frame,
 	d.mu.Lock()
 	defer d.mu.Unlock()
 	if d.closed {
-		return nil, func() {}
+		c := make(chan frame)
+		close(c)
+		return c, func() {}
 	}
 	req := newFramesReq(bufSize, filter)
 	req.once = false
